@@ -38,12 +38,23 @@ func (matcher *requestResponseMatcher) emitEvent(isRequest bool, ident string, m
 	}
 
 	if item != nil {
-		item.ConnectionInfo = &api.ConnectionInfo{
-			ClientIP:   reader.GetTcpID().SrcIP,
-			ClientPort: reader.GetTcpID().SrcPort,
-			ServerIP:   reader.GetTcpID().DstIP,
-			ServerPort: reader.GetTcpID().DstPort,
-			IsOutgoing: true,
+		if reader.GetIsClient() {
+			item.ConnectionInfo = &api.ConnectionInfo{
+				ClientIP:   reader.GetTcpID().SrcIP,
+				ClientPort: reader.GetTcpID().SrcPort,
+				ServerIP:   reader.GetTcpID().DstIP,
+				ServerPort: reader.GetTcpID().DstPort,
+				IsOutgoing: true,
+			}
+		} else {
+			// On the server half the source of the reader is the server.
+			item.ConnectionInfo = &api.ConnectionInfo{
+				ClientIP:   reader.GetTcpID().DstIP,
+				ClientPort: reader.GetTcpID().DstPort,
+				ServerIP:   reader.GetTcpID().SrcIP,
+				ServerPort: reader.GetTcpID().SrcPort,
+				IsOutgoing: false,
+			}
 		}
 		reader.GetEmitter().Emit(item)
 	}
